@@ -96,10 +96,22 @@ class FuncInfo:
 
 
 class Module:
+    def segment(self, node):
+        """source text of a single-line node (fast path of ast.get_source_segment)"""
+        try:
+            if node.lineno == node.end_lineno:
+                line = self.lines[node.lineno - 1]
+                if line.isascii():
+                    return line[node.col_offset:node.end_col_offset]
+        except Exception:
+            pass
+        return ast.get_source_segment(self.src, node)
+
     def __init__(self, name, path, src=None):
         self.name, self.path = name, path
         self.src = open(path).read() if src is None else src
         self.tree = ast.parse(self.src)
+        self.lines = self.src.splitlines()
         self.funcs = {}       # key -> FuncInfo
         self.classes = {}     # class name -> {"fields": [..], "methods": {...}}
         self.globals = {}     # name -> ast expr
@@ -120,13 +132,15 @@ class Module:
                         c["methods"][m.name] = fi
                         self.order.append(("func", fi.key))
                 init = c["methods"].get("__init__")
-                if init:
-                    for s in ast.walk(init.node):
-                        if isinstance(s, ast.Assign):
-                            for t in s.targets:
-                                if (isinstance(t, ast.Attribute) and isinstance(t.value, ast.Name)
-                                        and t.value.id == "self" and t.attr not in c["fields"]):
-                                    c["fields"].append(t.attr)
+                meths = ([init] if init else []) + [m2 for m2 in c["methods"].values() if m2 is not init]
+                for meth in meths:
+                    for s in ast.walk(meth.node):
+                        ts = s.targets if isinstance(s, ast.Assign) else \
+                            [s.target] if isinstance(s, ast.AugAssign) else []
+                        for t in ts:
+                            if (isinstance(t, ast.Attribute) and isinstance(t.value, ast.Name)
+                                    and t.value.id == "self" and t.attr not in c["fields"]):
+                                c["fields"].append(t.attr)
             elif isinstance(n, ast.Assign) and len(n.targets) == 1 and isinstance(n.targets[0], ast.Name):
                 self.globals[n.targets[0].id] = n.value
                 self.order.append(("global", n.targets[0].id))
@@ -238,14 +252,14 @@ class FT:
         if v is False: return "(VBool false)"
         if isinstance(v, int): return zlit(v)
         if isinstance(v, float):
-            txt = ast.get_source_segment(self.mod.src, n) or repr(v)
+            txt = self.mod.segment(n) or repr(v)
             return float_lit(txt, v)
         if isinstance(v, str): return coq_str(v)
         fail(n, "constant %r" % (v,))
 
     def e_Name(self, n):
         x = n.id
-        if x in self.locals:
+        if x in self.locals or x in getattr(self, "outer", ()):
             return self.v(x)
         if x in self.nested:
             fail(n, "nested function used as a value")
@@ -273,7 +287,7 @@ class FT:
                     and not isinstance(n.operand.value, bool):
                 v = n.operand.value
                 if isinstance(v, int): return zlit(-v)
-                txt = ast.get_source_segment(self.mod.src, n.operand) or repr(v)
+                txt = self.mod.segment(n.operand) or repr(v)
                 return float_lit("-" + txt, -v)
             return "(%s %s)" % (self.op("neg"), self.expr(n.operand))
         if isinstance(n.op, ast.UAdd):
@@ -512,6 +526,10 @@ class FT:
         return [self.expr(a) for a in n.args]
 
     def call_name(self, n, name):
+        if name in self.nested:
+            coqname, npar = self.nested[name]
+            args = self.plain_args(n, npar)
+            return "(%s %s)" % (coqname, " ".join(args) if args else "tt")
         if name in self.locals:
             # calling a local value: function parameters (basis functions)
             args = self.plain_args(n, 0, 9)
@@ -539,7 +557,9 @@ class FT:
             a = self.plain_args(n, 1, 2)
             return "(%s %s %s)" % (self.op("round"), a[0], a[1] if len(a) > 1 else "VNone")
         if name == "range":
-            a = self.plain_args(n, 1, 2)
+            a = self.plain_args(n, 1, 3)
+            if len(a) == 3:
+                return "(py_range3 %s %s %s)" % (a[0], a[1], a[2])
             return "(py_range %s %s)" % (("(VInt 0)", a[0]) if len(a) == 1 else (a[0], a[1]))
         if name in ("min", "max"):
             a = self.plain_args(n, 1, 9)
@@ -598,7 +618,7 @@ class FT:
                     a = a + ["(VInt 0)"] * (7 - len(a))
                     return "(datetime_new [%s])" % "; ".join(a)
                 fail(n, "call %s.%s" % (rv.id, m))
-            if self.tr.resolve_class(self.mod, rv.id):
+            if self.tr.resolve_class(self.mod, rv.id) or self.tr.resolve_namespace_class(self.mod, rv.id):
                 fi = self.tr.find_method(rv.id, m)
                 if fi is None: fail(n, "no method %s.%s" % (rv.id, m))
                 if fi.is_method: fail(n, "unbound method call %s.%s" % (rv.id, m))
@@ -608,6 +628,10 @@ class FT:
             if rv.attr == "date" and m == "fromordinal":
                 return "(date_fromordinal %s)" % self.plain_args(n, 1)[0]
             fail(n, "datetime.%s.%s" % (rv.attr, m))
+        if isinstance(rv, ast.Name) and rv.id in getattr(self, "ns_vars", {}):
+            fi = self.tr.find_method(self.ns_vars[rv.id], m)
+            if fi is None or fi.is_method: fail(n, "method %s of a namespace instance" % m)
+            return self.call_fi(fi, n)
         # self.method(...)
         if isinstance(rv, ast.Name) and rv.id == "self" and self.fi.cls:
             fi = self.tr.find_method(self.fi.cls, m)
@@ -711,6 +735,43 @@ class FT:
 
     def s_Pass(self, s, K): return K()
 
+    def s_FunctionDef(self, s, K):
+        """nested helper function: a local Coq function; it may read (not write) the
+        enclosing function's variables, which must not be re-assigned after the def"""
+        if self.loops: fail(s, "nested def inside a loop")
+        fi = FuncInfo(self.mod.name, None, s)
+        if fi.vararg or fi.kwarg or any(d is not None for d in fi.defaults) or s.decorator_list:
+            fail(s, "nested def with defaults/varargs/decorators")
+        sub = FT(self.tr, self.mod, fi)
+        sub.needed = self.needed
+        sub.hard, sub.soft = self.hard, self.soft
+        sub.nested = dict(self.nested)
+        sub.outer = set(self.locals) | set(getattr(self, "outer", ()))
+        sub.locals = sub.collect_locals()
+        sub.loops = []
+        free = {n.id for n in ast.walk(s) if isinstance(n, ast.Name)} - sub.locals
+        captured = free & sub.outer
+        self.captured_after = getattr(self, "captured_after", [])
+        self.captured_after.append((s, captured))
+        for n in ast.walk(s):
+            if isinstance(n, ast.Call) and isinstance(n.func, ast.Attribute) and \
+                    (n.func.attr in MUT_BUILTIN or self.tr.is_mutating_name(n.func.attr)):
+                r = n.func.value
+                if isinstance(r, ast.Name) and r.id in captured:
+                    fail(n, "nested def mutates a captured variable")
+        body = sub.stmts(list(s.body), "VNone")
+        for x in reversed(sorted(sub.locals - set(fi.params))):
+            body = "let %s : val := VErr UnboundLocalError in %s" % (sub.v(x), body)
+        cps = [sub.v(p) for p in fi.params]
+        if cps:
+            sig = "(%s : val)" % " ".join(cps)
+            body = "guard [%s] (fun _ => %s)" % ("; ".join(cps), body)
+        else:
+            sig = "(_ : unit)"
+        cname = "nf_%s" % s.name
+        self.nested[s.name] = (cname, len(fi.params))
+        return "let %s := fun %s => %s in %s" % (cname, sig, body, K())
+
     def s_Expr(self, s, K):
         v = s.value
         if isinstance(v, ast.Constant): return K()
@@ -759,6 +820,17 @@ class FT:
         return "bind %s (fun %s => %s)" % (newval, var, K())
 
     def s_Assign(self, s, K):
+        v0 = s.value
+        if (len(s.targets) == 1 and isinstance(s.targets[0], ast.Name) and isinstance(v0, ast.Call)
+                and isinstance(v0.func, ast.Name) and not v0.args and not v0.keywords
+                and v0.func.id not in CLASS_TAG and v0.func.id not in self.locals
+                and self.tr.resolve_namespace_class(self.mod, v0.func.id)
+                and self.tr.trivial_init(v0.func.id)):
+            # instance of a class that only holds static methods: remember the class
+            if self.loops: fail(s, "namespace instance inside a loop")
+            self.ns_vars = getattr(self, "ns_vars", {})
+            self.ns_vars[s.targets[0].id] = v0.func.id
+            return "let %s : val := VNone in %s" % (self.v(s.targets[0].id), K())
         def build():
             val = self.expr(s.value)
             if len(s.targets) == 1:
@@ -878,6 +950,15 @@ class FT:
         body = list(fi.node.body)
         others = sorted(self.locals - set(params))
         text = self.stmts(body, self.ret("VNone"))
+        for dn, cap in getattr(self, "captured_after", []):
+            for n in ast.walk(fi.node):
+                names = set()
+                if isinstance(n, ast.Assign):
+                    for t in n.targets: target_names(t, names)
+                elif isinstance(n, (ast.AugAssign, ast.For)):
+                    target_names(n.target, names)
+                if names & cap and n.lineno > dn.end_lineno:
+                    fail(n, "variable captured by a nested def is re-assigned after it")
         for x in reversed(others):
             text = "let %s : val := VErr UnboundLocalError in %s" % (self.v(x), text)
         cparams = [self.v(p) for p in params]
@@ -957,6 +1038,22 @@ class Translator:
         if name in mod.classes: return True
         imp = mod.imports.get(name)
         return bool(imp and self.class_module(name))
+
+    def resolve_namespace_class(self, mod, name):
+        """a class used as a namespace of static methods (Sun, Moon, Venus, ...)"""
+        if name in mod.classes: return True
+        imp = mod.imports.get(name)
+        if imp and imp[0] and imp[0].startswith("pymeeus.") and imp[1] == name:
+            mn = imp[0].split(".", 1)[1]
+            return mn in self.mod_index and name in self.modules[self.mod_index[mn]].classes
+        return False
+
+    def trivial_init(self, cname):
+        fi = self.find_method(cname, "__init__")
+        if fi is None: return True
+        return len(fi.params) == 1 and all(
+            isinstance(st, (ast.Pass,)) or (isinstance(st, ast.Expr) and isinstance(st.value, ast.Constant))
+            for st in fi.node.body)
 
     def resolve_function(self, mod, name):
         imp = mod.imports.get(name)
@@ -1302,9 +1399,13 @@ class Translator:
             lines += ["Import ListNotations.", "Open Scope Z_scope.", "",
                       "Section Gen.", "Context {F : Type} (fo : FloatOps F).",
                       "Local Notation val := (PyVal.val F).",
-                      "Local Notation py_apply := (fun (f : val) (args : list val) => @VErr F Unsupported).", ""]
-            for p in prev:
+                      "Local Notation py_apply := (f_call fo).", ""]
+            own = set(self.emitted_names[m.name])
+            seen = set()
+            for p in reversed(prev):       # the latest definition of a name wins, as in Python
                 for nm in self.emitted_names[p]:
+                    if nm in own or nm in seen: continue
+                    seen.add(nm)
                     lines.append("Local Notation %s := (M_%s.%s fo)." % (nm, p, nm))
             lines.append("")
             lines += self.out[m.name]
